@@ -98,11 +98,15 @@ func (c *Ctx) claimConstruction() {
 		sfn, _ := c.Analysis(sy)
 		sinfo := sy.Pkg.TypesInfo
 		okSel := false
-		for _, call := range callsIn(sy.Decl.Body, false) {
+		var allCalls []*ast.CallExpr
+		for _, bd := range sfn.Bodies() {
+			allCalls = append(allCalls, callsIn(bd, false)...)
+		}
+		for _, call := range allCalls {
 			if f := gf.StaticCallee(sinfo, call); f != nil && f.Origin() == fi.Obj {
 				selArg := rootIdent(call.Args[1])
 				setArg := call.Args[0]
-				ast.Inspect(sy.Decl.Body, func(n ast.Node) bool {
+				ast.Inspect(c.hostOf(sy, call).Decl.Body, func(n ast.Node) bool {
 					as, ok := n.(*ast.AssignStmt)
 					if !ok || len(as.Rhs) != 1 || len(as.Lhs) < 1 {
 						return true
@@ -646,14 +650,15 @@ func (c *Ctx) adoptOnlyOrphans(rule string) {
 				continue
 			}
 			n++
-			fn, an := c.Analysis(fi)
-			arg := rootIdent(call.Args[1])
 			name := fmt.Sprintf("%s -> AdoptOrphanRevisions(%s)", fi.Obj.Name(), types.ExprString(call.Args[1]))
-			if arg == nil {
-				c.Bad(rule+"-adopter-gets-orphans-only", name, call.Pos(), "argument is not a slice variable")
+			// the slice is put together here, or in a filter function called for it
+			fi, obj, _ := c.collectorOf(fi, call.Args[1])
+			if fi == nil || obj == nil {
+				c.Bad(rule+"-adopter-gets-orphans-only", name, call.Pos(), "argument is neither a slice variable filled here nor the result of a filter function")
 				continue
 			}
-			obj := info.ObjectOf(arg)
+			info := fi.Pkg.TypesInfo
+			fn, an := c.Analysis(fi)
 			nApp := 0
 			bad := false
 			ast.Inspect(fi.Decl.Body, func(x ast.Node) bool {
@@ -730,6 +735,26 @@ func (c *Ctx) adoptOnlyOrphans(rule string) {
 			alts = append(alts, gf.FNil(gf.CallT("k8s.io/apimachinery/pkg/apis/meta/v1."+g, nil, fn.Term(rev))))
 		}
 		c.Implies(an.StateAtExpr(s.Call), gf.Or(alts...), rule+"-adoption-patch-on-orphans-only", name, s.Call.Pos())
+		// and the rejection is for owned revisions only: an error built on the spot before the patch is returned only
+		// where the revision has a controller (a rejection of every revision means nothing is ever adopted)
+		var owned []*gf.Formula
+		for _, g := range []string{"GetControllerOf", "GetControllerOfNoCopy"} {
+			owned = append(owned, gf.FNotNil(gf.CallT("k8s.io/apimachinery/pkg/apis/meta/v1."+g, nil, fn.Term(rev))))
+		}
+		fn.KeepDead = true
+		anK := fn.Analyze(nil)
+		fn.KeepDead = false
+		for _, bd := range fn.Bodies() {
+			ownNodes(bd, func(x ast.Node) {
+				ret, ok := x.(*ast.ReturnStmt)
+				if !ok || len(ret.Results) == 0 || ret.Pos() > s.Call.Pos() || !isErrorCtor(fn.Info, ret.Results[len(ret.Results)-1]) {
+					return
+				}
+				if st := anK.StateBefore(ret); st.Reachable() {
+					c.Implies(st, gf.Or(owned...), rule+"-adoption-rejects-owned-only", tableShort(c, ad)+": rejection before the patch", ret.Pos())
+				}
+			})
+		}
 	}
 	c.Floor(rule+"-revision-patch-sites", nPatch, 1)
 }
@@ -814,7 +839,7 @@ func (c *Ctx) cacheObjectsUnmodified() {
 				id, ok := ast.Unparen(e).(*ast.Ident)
 				return ok && info.ObjectOf(id) == setObj
 			}, nil, "StatefulSet")
-			c.Floor("C10.7-sync-set-uses", n, 3)
+			c.Floor("C10.7-sync-set-uses", n, 1)
 		}
 	}
 	// (b) observed pods in the reconcile function
